@@ -142,12 +142,13 @@ def run(prop, tier, seed):
             runs.append(dict(id=i + 1, threads=rng.choice((1, 1, 2, 4)), tick_ns=rng.choice(TICKS),
                              t0_secs=rng.choice((0, 1_600_000_000)), lags=lags, cmds=cmds))
         validate_runs(chk, prop, b, runs, "random-driver", wd, f"b3_{bn}")
-    # 4. C08: a second thread issues scheduling requests through a Scheduler clone while the main thread steps;
-    #    the request is logged before and after the call and TLC places its atomic effect (XSchedule) in between
-    if prop == "C08":
+    # 4. C08 (and C01: "at every moment all pending actions are strictly in the future"): a second thread issues
+    #    scheduling requests through a Scheduler clone while the main thread steps; the request is logged before and
+    #    after the call and TLC places its atomic effect (XSchedule) in between
+    if prop in ("C08", "C01"):
         b = BENCHES["chrono"]
         runs = []
-        for i in range(600 if thorough else 80):
+        for i in range((600 if thorough else 80) if prop == "C08" else (300 if thorough else 60)):
             cmds = [dict(c="sched", cls="ev", target="m1", abs=True, d=t, kind="once", per=0, slot="k1", prog=1)
                     for t in range(2, 14, 2)]
             cmds += [dict(c="step") if rng.random() < 0.7 else dict(c="step_until", abs=False, d=rng.randint(1, 2))
@@ -159,7 +160,7 @@ def run(prop, tier, seed):
                 xs.append(dict(target=rng.choice(["m1", "m2"]), abs=absd, d=rng.randint(1, 13) if absd else rng.randint(0, 2),
                                kind=kind, per=rng.randint(0, 3) if "periodic" in kind else 0, slot="k3", prog=1))
             runs.append(dict(id=i + 1, threads=rng.choice((1, 4)), tick_ns=1, t0_secs=0, lags=[], cmds=cmds, xsched=xs,
-                             x_gap_us=rng.choice((0, 20, 50)), delay_point=rng.choice((40, 40, 42, 43, 0)),
+                             x_gap_us=rng.choice((0, 20, 50)), delay_point=rng.choice((40, 40, 42, 43, 44, 44, 0)),
                              delay_us=rng.choice((100, 300))))
         validate_runs(chk, prop, b, runs, "scheduling thread racing step()", wd, "race")
     chk.assumptions = TRUSTED + [
@@ -167,6 +168,10 @@ def run(prop, tier, seed):
         "Bench.tla (C02-C04)",
         "wall-clock: the Timeout fault uses a 300 ms step timeout against a 1200 ms handler",
     ]
+    if prop == "C11":
+        # attribution inside model hierarchies: the Bench layer has the sub-models (hpanic_* benches)
+        import check_bench
+        check_bench.bench_loop(chk, prop, check_bench.C11_ATTRIBUTION, tier, rng, wd)
     return chk.finish(rule="TLC enumerates every driver command sequence of the bounded instance; each generated "
                            "behaviour and each seeded random command sequence is executed on the real crate on 1 and "
                            "2-4 worker threads and the recorded trace must be a behaviour of SimCore.tla with the "
@@ -239,6 +244,10 @@ def run_c19(tier, seed):
         "handler future, and through the process's thread count; memory that carries no token is not observed",
         "a step time-out caused by an overrunning handler abandons that computation by design (excluded by the property)",
     ]
+    # executor level: the abort / join sequence of Pool.tla (DropReturns, no task dropped outside a worker), TLC and traces
+    import check_pool
+    check_pool.pool_part(chk, rng, thorough, wd, ["DropReturns", "NoDropOutsideWorker", "OnePlace"],
+                         scenarios=["panic", "burst", "msgs"], big=False)
     return chk.finish(rule="the simulation (with its scheduler handle, addresses, event sources and key handles) is "
                            "dropped after every prefix of the TLC-generated driver sequences, after seeded random "
                            "prefixes and after a failure with senders suspended on full mailboxes, on 1-16 threads with a "
